@@ -152,23 +152,35 @@ def run_impl(case):
                 expect = set()
                 oracle = []
             elif nm == 'ior':
-                s |= mk_other()
+                o = mk_other()
+                s |= o
+                if hasattr(o, 'add'):
+                    o.add(78)      # the operand stays independent of `s`
                 expect = bset | set(args)
                 for k in args:
                     if k not in oracle:
                         oracle.append(k)
             elif nm == 'iand':
-                s &= mk_other()
+                o = mk_other()
+                s &= o
+                if hasattr(o, 'add'):
+                    o.add(78)      # the operand stays independent of `s`
                 expect = bset & set(args)
                 oracle = [k for k in oracle if k in expect]
                 nontrivial |= (reached2 and expect != bset)
             elif nm == 'isub':
-                s -= mk_other()
+                o = mk_other()
+                s -= o
+                if hasattr(o, 'add'):
+                    o.add(78)      # the operand stays independent of `s`
                 expect = bset - set(args)
                 oracle = [k for k in oracle if k in expect]
                 nontrivial |= (reached2 and expect != bset)
             elif nm == 'ixor':
-                s ^= mk_other()
+                o = mk_other()
+                s ^= o
+                if hasattr(o, 'add'):
+                    o.add(78)      # the operand stays independent of `s`
                 expect = bset ^ set(args)
                 order_known = False
             elif nm == 'isub-self':
@@ -186,6 +198,16 @@ def run_impl(case):
                         'xor': bset ^ set(args)}[nm]
                 rl = list(r)
                 res = rl
+                # the result is a new set: changing it (or the operand) afterwards must not change `s`
+                # (checked by the content observation of `s` below)
+                try:
+                    r.add(77)
+                    if rl:
+                        r.discard(rl[0])
+                    if hasattr(o, 'add'):
+                        o.add(78)
+                except Exception:
+                    pass
                 if set(rl) != want or len(rl) != len(set(rl)):
                     fail('binop-content', '%s gave %r, the mathematical result is %r' % (nm, rl, sorted(want)))
                 if not isinstance(r, cls):
